@@ -251,6 +251,46 @@ class FormatPart(Part):
         return res
 
 
+CATCHALL_TEMPLATES = ['bind-password "{S}"; ## SECRET-DATA', "default-chap-secret {S}", "foo {S} bar", "{S}",
+                      "  x-key-y ( {S} )"]
+
+
+class CatchAllPart(Part):
+    name = "hashes_recognised_only_by_their_shape"
+    desc = "$9$ / $1$ strings under keywords no pattern knows (recognised by the catch-all patterns alone): format and context kept"
+
+    def __init__(self, tier, seed):
+        self.tier, self.seed = tier, seed
+
+    def cases(self):
+        return [{"t": i, "salt": s} for i in range(len(CATCHALL_TEMPLATES)) for s in SALTS[:2]]
+
+    def run(self, case):
+        res = Res()
+        tmpl = CATCHALL_TEMPLATES[case["t"]]
+        f = {"id": "catchall.f%d" % case["t"], "template": tmpl}
+        secs = []
+        for ch in refs.J9_ALPHABET:
+            for plain in ("hunter2", "Tr0ub4dor&3", "a", "pass-word_9"):
+                secs.append(refs.j9_encode(plain, ch, "abc"))
+        for k in range(1, 9):
+            secs.append("$1$%s$%s" % ("abcdefgh"[:k], secdom._crypt_tail(22, k)))
+            secs.append("$1$%s$%s" % ("./Z9-_xy"[:k].replace("-", "A").replace("_", "b"), secdom._crypt_tail(22, k + 9)))
+        if "only" in case:
+            secs = [case["only"][0]]
+        lines, meta = [], []
+        for sec in secs:
+            marked = secdom.fill(tmpl, ["\x00"]).split()
+            idx = [i for i, t in enumerate(marked) if "\x00" in t][0]
+            pre, post = marked[idx].split("\x00")
+            lines.append(secdom.fill(tmpl, [sec]))
+            meta.append((sec, pre, post, idx))
+        judge(res, f, lines, meta, case["salt"])
+        if "only" not in case:
+            res.samples.append({"template": tmpl, "salt": case["salt"], "secrets": len(secs)})
+        return res
+
+
 class EnclosingPart(Part):
     name = "enclosing_text"
     desc = "head x tail enclosing combinations around one secret per class, every form"
@@ -388,4 +428,4 @@ class DoubleMatch(Part):
 
 
 def parts(tier, seed):
-    return [FormatPart(tier, seed), EnclosingPart(tier, seed), DoubleMatch(tier, seed)]
+    return [FormatPart(tier, seed), EnclosingPart(tier, seed), DoubleMatch(tier, seed), CatchAllPart(tier, seed)]
